@@ -138,14 +138,21 @@ PROPS.update({
                                          "re-used ids)", "GC timing of weak references"],
     },
     "C02": {
-        "modules": _DISPATCH_MODS,
-        "contracts": [_HR],
+        "modules": _DISPATCH_MODS + ["contracts.exposure"],
+        "contracts": ["Pyro5.server.is_private_attribute", "Pyro5.server._get_attribute#body", "Pyro5.server._get_exposed_property_value#body",
+                      "Pyro5.server._set_exposed_property_value#body", _HR],
         "harness": "replay/dispatch.py",
-        "explanation": "dispatch part: in all five request kinds user code is reached only through _get_attribute / _get_exposed_property_value / _set_exposed_property_value "
+        "explanation": "is_private_attribute: every leading-underscore name not of dunder form and every reserved dunder name is private, nothing without a leading "
+                       "underscore is.  _get_attribute (object model of attribute lookup): a name is served only if it is not private, the class attribute is not a data "
+                       "descriptor (so no property getter ever runs while resolving a method name), the instance has the attribute and it is flagged exposed; exactly that "
+                       "attribute is returned; every refusal is an AttributeError and runs no code of the object.  _get/_set_exposed_property_value: the accessor that runs "
+                       "is the fget/fset of the class's own property of that non-private name, flagged exposed, called on the target object, exactly once.  "
+                       "dispatch part: in all five request kinds user code is reached only through _get_attribute / _get_exposed_property_value / _set_exposed_property_value "
                        "applied to the name taken from the request and the dispatched object (no other path to a call), a refused non-oneway request gets an error reply and a "
                        "oneway request none.",
-        "assumptions": _COMMON_ASSUME + ["the three gate functions and the metadata computation against the CPython object model are covered by the bounded native harness "
-                                         "(class shapes x names x request kinds) in this version"],
+        "assumptions": _COMMON_ASSUME + ["object model of CPython attribute lookup (contracts/exposure.py): uninterpreted class_attribute / instance_getattr / is_data_descriptor / "
+                                         "_pyroExposed flag; no __getattr__ or metaclass overrides on registered classes; validated by the native harness on generated class shapes (bounded)",
+                                         "the metadata computation (_get_exposed_members, its per-class cache, 'advertise = serve') and @expose are covered by the bounded native harness only"],
     },
     "C03": {
         "modules": _DISPATCH_MODS + ["contracts.client_invoke"],
